@@ -16,20 +16,20 @@ import (
 )
 
 type Atom struct {
-	Name string
-	W    int  // width in bits (<=64)
-	Env  bool // environment quantity: never enumerated (hdr.Size, remaining bytes, positions, loop indices)
-	Loop bool // produced inside a loop body (generic iteration)
+	Name  string
+	W     int      // width in bits (<=64)
+	Env   bool     // environment quantity: never enumerated (hdr.Size, remaining bytes, positions, loop indices)
+	Loop  bool     // produced inside a loop body (generic iteration)
 	Fixed []uint64 // fixed enumeration domain, if any
 }
 
 type Seg struct {
-	A    *Atom // nil => constant bits
-	Lo   int   // first bit of A covered
-	N    int   // number of bits
-	C    uint64
-	Tag  *Atom // for constant segments that came from the configuration: the atom …
-	TLo  int   // … and slice they stand for
+	A   *Atom // nil => constant bits
+	Lo  int   // first bit of A covered
+	N   int   // number of bits
+	C   uint64
+	Tag *Atom // for constant segments that came from the configuration: the atom …
+	TLo int   // … and slice they stand for
 }
 
 type ekind int
@@ -59,7 +59,9 @@ func cI(v int64) *Expr  { return &Expr{K: kConstI, I: v} }
 func cB(v bool) *Expr   { return &Expr{K: kConstB, B: v} }
 func cS(v string) *Expr { return &Expr{K: kConstS, S: v} }
 
-func (e *Expr) IsConst() bool { return e != nil && (e.K == kConstI || e.K == kConstB || e.K == kConstS) }
+func (e *Expr) IsConst() bool {
+	return e != nil && (e.K == kConstI || e.K == kConstB || e.K == kConstS)
+}
 func (e *Expr) ConstI() (int64, bool) {
 	if e != nil && e.K == kConstI {
 		return e.I, true
